@@ -5,6 +5,7 @@
 // R14: `n.parse()` with the target type fixed by the context
 #[verifier::external_body] pub fn parse_usize(s: &str) -> (r: Result<usize, ParseIntError>) { unimplemented!() }
 #[verifier::external_body] pub fn parse_u32(s: &str) -> (r: Result<u32, ParseIntError>) { unimplemented!() }
+#[verifier::external_body] pub fn parse_i32(s: &str) -> (r: Result<i32, ParseIntError>) { unimplemented!() }
 pub enum TildeExpr { Home, WorkingDir, OldWorkingDir, UserHome(String), NthDirFromTopOfDirStack { n: usize, plus_used: bool }, NthDirFromBottomOfDirStack { n: usize } }   // variants used are checked against word.rs
 pub assume_specification<T, E, F> [Result::<T, E>::or] (r: Result<T, E>, res: Result<T, F>) -> (o: Result<T, F>)
     ensures r is Ok ==> o == Ok::<T, F>(r->Ok_0), r is Err ==> o == res;
